@@ -253,6 +253,7 @@ class Parser:
         self.allow_float = False
         self.struct_types = set()                   # struct type names whose locals are modelled (configured per target)
         self.ptr_elems = set()                      # element type names `E` such that `E*` is a pointer into the array's data
+        self.skip_prefixes = []                     # token prefixes of statements that are ignored (configured per target, recorded)
 
     # -- helpers
     def err(self, msg):
@@ -506,8 +507,28 @@ class Parser:
     def stmt(self):
         t = self.peek()
         ln = t.line
+        for pre in self.skip_prefixes:              # configured statements without effect on the translated value
+            if all(self.peek(k).text == w for k, w in enumerate(pre)):
+                depth, j = 0, self.i
+                while j < len(self.toks) and not (depth == 0 and self.toks[j].text == ';'):
+                    depth += self.toks[j].text in ('(', '[', '{')
+                    depth -= self.toks[j].text in (')', ']', '}')
+                    j += 1
+                if j >= len(self.toks):
+                    raise self.err('unterminated statement')
+                text = ' '.join(x.text for x in self.toks[self.i:j])
+                self.i = j + 1
+                return ('ignored', text, ln)
         if self.at('{'):
             return ('block', self.block(), ln)
+        if t.kind == 'id' and self.at('goto'):
+            self.i += 1
+            lab = self.ident()
+            self.eat(';')
+            return ('goto', lab, ln)
+        if t.kind == 'id' and self.peek(1).kind == 'op' and self.peek(1).text == ':' and t.text not in ('default', 'case'):
+            self.i += 2
+            return ('label', t.text, ln)
         if self.at(';'):
             self.i += 1
             return ('block', [], ln)
@@ -587,7 +608,7 @@ class Parser:
             self.eat(')')
             body = self.stmt()
             return ('while', c, body, ln)
-        for kw in ('do', 'continue', 'goto', 'try', 'throw'):
+        for kw in ('do', 'continue', 'try', 'throw'):
             if self.at(kw):
                 raise self.err(f'`{kw}` statement (outside the subset)')
         # `S name;` for a configured struct type S
@@ -684,6 +705,7 @@ class Translator:
         self.alias = {}                     # local -> accessor path it was initialised with (and never assigned since)
         self.stack = []                     # helpers being translated (recursion is outside the subset)
         self.enums = {}
+        self.ignored = []                   # configured statements without effect on the translated value (recorded in the doc)
 
     def err(self, ln, msg):
         return TranslationError(f'{self.where}: line {ln}: {msg}')
@@ -760,16 +782,61 @@ class Translator:
             return '*' + self._path(e[1 + 1])
         return '?'
 
+    def etype(self):
+        return (self.spec.get('trace') or {}).get('etype', 'Int × Int')
+
+    def read_key(self, e):
+        """trace mode: the key of `e` when it is a configured element read (`recorded` or `silent`), else None"""
+        tr = self.spec.get('trace') or {}
+        if isinstance(e, tuple) and e and e[0] == 'mcall':
+            key = self._path(e[1]) + '.' + e[2] + '()'
+            if key in (tr.get('reads') or []) or key in (tr.get('silent_reads') or []):
+                return key
+        return None
+
+    def event(self, key, table, args, env, ln):
+        ix = [self.coerce(self.expr(a, env, ln), 'int', ln) for a in args]
+        if isinstance(table, dict):
+            ix = [str(table[key])] + ix
+        return '[(' + ', '.join(ix) + ')]'
+
+    def reads_in(self, e, out=None):
+        """the configured element reads inside expression `e`, in source order"""
+        out = [] if out is None else out
+        if isinstance(e, tuple):
+            if self.read_key(e) is not None:
+                out.append(e)
+            for x in e[1:]:
+                self.reads_in(x, out)
+        elif isinstance(e, list):
+            for x in e:
+                self.reads_in(x, out)
+        return out
+
+    def has_events(self, x):
+        """trace mode: does the statement / expression `x` append to the trace?"""
+        tr = self.spec.get('trace') or {}
+        if isinstance(x, tuple):
+            if x and x[0] == 'mcall':
+                key = self._path(x[1]) + '.' + x[2] + '()'
+                if key in (tr.get('reads') or []) or key in (tr.get('writes') or []):
+                    return True
+            if x and x[0] == 'call' and x[1].split('::')[-1] in self.known and self.known[x[1].split('::')[-1]].get('trace'):
+                return True
+            return any(self.has_events(y) for y in x[1:])
+        if isinstance(x, list):
+            return any(self.has_events(y) for y in x)
+        return False
+
     def trace_reads(self, e, env, ln, out):
-        """trace mode: the array reads of expression `e` in source order, as Lean terms of type `List (Int × Int)`"""
+        """trace mode: the array reads of expression `e` in source order, as Lean terms of type `List (<event type>)`"""
         if not isinstance(e, tuple):
             return
         tr = self.spec.get('trace') or {}
         if e[0] == 'mcall' and self._path(e[1]) + '.' + e[2] + '()' in (tr.get('reads') or []):
             for a in e[3]:
                 self.trace_reads(a, env, ln, out)
-            ix = [self.coerce(self.expr(a, env, ln), 'int', ln) for a in e[3]]
-            out.append('[(' + ', '.join(ix) + ')]')
+            out.append(self.event(self._path(e[1]) + '.' + e[2] + '()', tr['reads'], e[3], env, ln))
             return
         if e[0] == 'call' and e[1].split('::')[-1] in self.known and self.known[e[1].split('::')[-1]].get('trace'):
             f = self.known[e[1].split('::')[-1]]
@@ -795,7 +862,7 @@ class Translator:
         out = []
         for e in exprs:
             self.trace_reads(e, env, ln, out)
-        return ''.join(f'{pad}let acc_ : List (Int × Int) := acc_ ++ {t}\n' for t in out)
+        return ''.join(f'{pad}let acc_ : List ({self.etype()}) := acc_ ++ {t}\n' for t in out)
 
     def expr(self, e, env, ln):
         k = e[0]
@@ -803,10 +870,12 @@ class Translator:
         if tr:
             if k == 'float':
                 return ('()', 'elem')
-            if k == 'mcall' and self._path(e[1]) + '.' + e[2] + '()' in (tr.get('reads') or []):
+            if self.read_key(e) is not None:
                 return ('()', 'elem')
             if k == 'call' and e[1].split('::')[-1] in self.known and self.known[e[1].split('::')[-1]].get('trace'):
                 return ('()', 'elem')
+        if k == 'lean':
+            return (e[1], 'prop')
         if k == 'int':
             return (str(e[1]), 'int')
         if k == 'boollit':
@@ -1124,6 +1193,8 @@ class Translator:
             return self.spec['list_fields'][self._path(e[1])]
         if self._path(e) in (self.spec.get('ignored_assign') or {}):
             return None
+        if self.write_key(e) is not None:
+            return None
         if e[0] == 'un' and e[1] == '*':
             d = self.spec.get('deref') or {}
             p = self._path(e[2])
@@ -1131,12 +1202,24 @@ class Translator:
                 return d[p]
         raise self.err(ln, f'assignment to `{self._path(e)}` (outside the subset: only local scalars are assigned)')
 
+    def write_key(self, e):
+        """trace mode: the key of the lvalue `e` when it is a configured (recorded) element write"""
+        tr = self.spec.get('trace') or {}
+        if isinstance(e, tuple) and e and e[0] == 'mcall':
+            key = self._path(e[1]) + '.' + e[2] + '()'
+            if key in (tr.get('writes') or []):
+                return key
+        return None
+
     def assigned(self, stmts, env, acc=None, local=None):
-        """outer variables assigned by the statements, in first-assignment order"""
+        """outer variables assigned by the statements, in first-assignment order (trace mode: the trace `acc_` is one of them
+        when the statements append to it)"""
         acc = [] if acc is None else acc
         local = set() if local is None else local
         for s in stmts:
             k = s[0]
+            if self.spec.get('trace') and 'acc_' not in acc and self.has_events(s):
+                acc.append('acc_')
             if k == 'assign':
                 v = self.lvalue(s[2], {**env, **{x: 'int' for x in local}}, s[-1])
                 if v is not None and v not in local and v not in acc:
@@ -1198,7 +1281,68 @@ class Translator:
         return ('for', 'int', v, ('bin', '-', ('var', v), ('int', 1)), ('bin', '>=', ('var', v), bound),
                 [('preinc', '--', ('var', v))], ('block', tail, ln), ln, 'rebind')
 
+    # -- `goto L` to a label at the END of an enclosing block (`… goto L; … L: ; }` — "leave the rest of this block")
+    def may_goto(self, x, lab):
+        if isinstance(x, tuple):
+            if len(x) == 3 and x[0] == 'goto' and x[1] == lab:
+                return True
+            return any(self.may_goto(y, lab) for y in x)
+        if isinstance(x, list):
+            return any(self.may_goto(y, lab) for y in x)
+        return False
+
+    def guard_list(self, ss, lab, flag):
+        """the statements `ss` with every `goto lab` replaced by `flag = true` and everything that would be executed after
+        such a jump (the rest of each enclosing statement list, the remaining iterations of each enclosing loop) put under
+        `if (!flag)`: the same effects as the jump to the end of the block"""
+        out = []
+        for i, s in enumerate(ss):
+            out.append(self.guard_stmt(s, lab, flag))
+            if self.may_goto(s, lab) and i + 1 < len(ss):
+                ln = ss[i + 1][7] if ss[i + 1][0] == 'for' else ss[i + 1][-1]
+                rest = self.guard_list(ss[i + 1:], lab, flag)
+                out.append(('if', ('un', '!', ('var', flag)), ('block', rest, ln), None, ln))
+                break
+        return out
+
+    def guard_stmt(self, s, lab, flag):
+        k = s[0]
+        ln = s[7] if k == 'for' else s[-1]
+        if not self.may_goto(s, lab):
+            return s
+        if k == 'goto':
+            return ('assign', '=', ('var', flag), ('boollit', True), ln)
+        if k == 'block':
+            return ('block', self.guard_list(s[1], lab, flag), ln)
+        if k == 'if':
+            return ('if', s[1], self.guard_stmt(s[2], lab, flag), None if s[3] is None else self.guard_stmt(s[3], lab, flag), ln)
+        if k == 'for':
+            body = self.guard_stmt(s[6], lab, flag)
+            body = ('block', [('if', ('un', '!', ('var', flag)), body, None, ln)], ln)
+            return s[:6] + (body,) + s[7:]
+        raise self.err(ln, f'`goto {lab}` inside a `{k}` statement (outside the subset)')
+
+    def label_region(self, ss, env):
+        """a statement list that ends in `L: ;` → the list with the jumps to `L` expressed through a flag"""
+        idx = next((i for i, s in enumerate(ss) if s[0] == 'label'), None)
+        if idx is None:
+            return ss
+        lab, ln = ss[idx][1], ss[idx][2]
+        if any(not (s[0] == 'block' and not s[1]) for s in ss[idx + 1:]):
+            raise self.err(ln, f'label `{lab}` is not at the end of its block (outside the subset)')
+        region = ss[:idx]
+        if any(s[0] == 'label' for s in region):
+            raise self.err(ln, 'two labels in one block (outside the subset)')
+        if not self.may_goto(region, lab):
+            return region
+        flag = 'brk_' + lab
+        if flag in env or self.mentions(region, flag):
+            raise self.err(ln, f'the name `{flag}` is in use')
+        return [('decl', 'bool', [(flag, ('boollit', False))], ln)] + self.guard_list(region, lab, flag)
+
     def stmts(self, ss, env, k, ind):
+        if ss and any(s[0] == 'label' for s in ss):
+            ss = self.label_region(ss, env)
         if not ss:
             return k(env, ind)
         s, rest = ss[0], ss[1:]
@@ -1220,9 +1364,18 @@ class Translator:
         if kind == 'assert':
             self.asserts.append(f'line {ln}')
             return k(env, ind)
+        if kind == 'ignored':
+            self.ignored.append(f'line {ln} `{s[1]}`')
+            return k(env, ind)
+        if kind == 'goto':
+            raise self.err(ln, f'`goto {s[1]}`: the label is not at the end of an enclosing block of the function (outside the subset)')
+        if kind == 'label':
+            raise self.err(ln, f'label `{s[1]}` in a position that is not the end of a block (outside the subset)')
         if kind == 'return':
             if self.in_loop:
                 raise self.err(ln, '`return` inside a loop body (outside the subset)')
+            if s[1] is None and self.spec.get('trace') and self.spec.get('void'):
+                return pad + 'acc_'
             if s[1] is None:
                 raise self.err(ln, '`return;` without a value')
             if self.spec.get('trace'):
@@ -1262,6 +1415,11 @@ class Translator:
             env = dict(env)
             env[s[2]] = 'list'
             return f'{pad}let {lname(s[2])} : List Int := {sl[1]}\n' + k(env, ind)
+        if kind == 'assign' and self.write_key(s[2]) is not None:
+            if s[1] != '=' or self.has_events(s[3]) or self.reads_in(s[3]) or self.has_events(list(s[2][3])) or self.reads_in(list(s[2][3])):
+                raise self.err(ln, 'trace mode: a recorded write must be a plain store of a value that reads no array')
+            ev = self.event(self.write_key(s[2]), self.spec['trace']['writes'], s[2][3], env, ln)
+            return f'{pad}let acc_ : List ({self.etype()}) := acc_ ++ {ev}\n' + k(env, ind)
         if kind == 'assign':
             if self.trace_pre([s[3]], env, ln, pad):
                 raise self.err(ln, 'trace mode: array read in an assignment (outside the subset)')
@@ -1289,6 +1447,30 @@ class Translator:
                 rhs = ('bin', s[1][0], ('var', v), rhs)
             val = self.coerce(self.expr(rhs, env, ln), kd, ln)
             return f'{pad}let {lname(v)} : {self.lean_type(kd)} := {val}\n' + k(env, ind)
+        if kind == 'if' and self.spec.get('trace') and self.reads_in(s[1]):
+            # a condition on element values (opaque): an oracle parameter decides it, or — `opaque_if='never'` — it is taken to
+            # be false and the statement must do nothing but leave a block (the trace is then the longest one: a superset)
+            tr = self.spec['trace']
+            pre = self.trace_pre([s[1]], env, ln, pad)
+            if tr.get('oracle'):
+                name, op, n = tr['oracle']
+                c = s[1]
+                if not (c[0] == 'bin' and c[1] in ('!=', '==') and self.read_key(c[2]) and self.read_key(c[3])):
+                    raise self.err(ln, 'trace mode: a condition on element values must be `read != read` / `read == read`')
+                ix = [self.atom(self.coerce(self.expr(a, env, ln), 'int', ln)) for r in (c[2], c[3]) for a in r[3]]
+                if len(ix) != n or self.reads_in([a for r in (c[2], c[3]) for a in r[3]]):
+                    raise self.err(ln, f'trace mode: the element comparison has {len(ix)} index arguments, the oracle takes {n}')
+                test = f'({name} {" ".join(ix)} = true)'
+                if (c[1] == '==') != (op == '=='):
+                    test = f'¬ {test}'
+                return pre + self.stmt(('if', ('lean', test), s[2], s[3], ln), env, k, ind)
+            if tr.get('opaque_if') == 'never':
+                body = s[2][1] if s[2][0] == 'block' else [s[2]]
+                if s[3] is not None or not body or any(b[0] != 'assign' or b[2][0] != 'var' or not b[2][1].startswith('brk_') for b in body):
+                    raise self.err(ln, 'trace mode: a statement under a condition on element values must only leave a block (`goto`)')
+                self.assumptions.append(f'line {ln}: the data-dependent exit is never taken (the trace is the longest one)')
+                return pre + k(env, ind)
+            raise self.err(ln, 'trace mode: array read in a condition (outside the subset)')
         if kind == 'if':
             if self.trace_pre([s[1]], env, ln, pad):
                 raise self.err(ln, 'trace mode: array read in a condition (outside the subset)')
@@ -1375,8 +1557,26 @@ class Translator:
                 raise self.err(ln, 'loop step other than ++i / --i (outside the subset)')
         if up is None:
             raise self.err(ln, 'loop does not step its index')
-        if not (cond[0] == 'bin' and cond[2] == ('var', v)):
-            raise self.err(ln, 'loop condition is not `i <op> bound`')
+        # `i <op> bound && G && …`: the simple bound gives the range; the other conjuncts are tested before every iteration
+        # and the first failure ends the loop (an `alive` flag in the fold state)
+        conj = []
+
+        def flat(c):
+            if c[0] == 'bin' and c[1] == '&&':
+                flat(c[2])
+                flat(c[3])
+            else:
+                conj.append(c)
+        flat(cond)
+        okops = ('!=', '<', '<=') if up else ('>=', '>')
+        bi = next((i for i, c in enumerate(conj) if c[0] == 'bin' and c[2] == ('var', v) and c[1] in okops
+                   and not self.mentions(c[3], v)), None)
+        if bi is None:
+            raise self.err(ln, 'loop condition is not `i <op> bound` (possibly `&&` further tests)')
+        guards = conj[:bi] + conj[bi + 1:]
+        cond = conj[bi]
+        if guards and (self.has_events(guards) or self.reads_in(guards)):
+            raise self.err(ln, 'array read in a loop condition (outside the subset)')
         op = cond[1]
         lo = self.coerce(self.expr(init, env, ln), 'int', ln)
         bound = self.coerce(self.expr(cond[3], env, ln), 'int', ln)
@@ -1404,13 +1604,28 @@ class Translator:
         tup = self.tuple_of(vs)
         env_in = dict(env)
         env_in[v] = 'int'
+        for w in self.free_in_bound(cond[3]) | self.free_in_bound(init):
+            if w in vs:
+                raise self.err(ln, f'loop bound `{w}` is assigned in the body (outside the subset)')
+        if guards:
+            go = 'go_' + v
+            if go in env or self.mentions(body, go):
+                raise self.err(ln, f'the name `{go}` is in use')
+            g = ' ∧ '.join(self.coerce(self.expr(c, env_in, ln), 'prop', ln) for c in guards)
+            st_in = '(' + ', '.join([go] + [lname(x) for x in vs]) + ')'
+            st = lambda b: '(' + ', '.join([b] + [lname(x) for x in vs]) + ')'
+            was = self.in_loop
+            self.in_loop = True
+            tb = self.stmts([body], env_in, lambda env2, ind2: '  ' * ind2 + st('true'), ind + 3)
+            self.in_loop = was
+            return (f'{pad}let {st_in} := (List.range (Int.toNat ({count}))).foldl (fun {st_in} (k_ : Nat) =>\n'
+                    f'{pad}    let {lname(v)} : Int := {ix}\n'
+                    f'{pad}    if {go} = true ∧ {g} then\n{tb}\n'
+                    f'{pad}    else\n{pad}      {st("false")}) {st("true")}\n' + k(env, ind))
         was = self.in_loop
         self.in_loop = True
         tb = self.stmts([body], env_in, lambda env2, ind2: '  ' * ind2 + tup, ind + 2)
         self.in_loop = was
-        for w in self.free_in_bound(cond[3]) | self.free_in_bound(init):
-            if w in vs:
-                raise self.err(ln, f'loop bound `{w}` is assigned in the body (outside the subset)')
         return (f'{pad}let {tup} := (List.range (Int.toNat ({count}))).foldl (fun {tup} (k_ : Nat) =>\n'
                 f'{pad}    let {lname(v)} : Int := {ix}\n{tb}) {tup}\n' + k(env, ind))
 
@@ -1629,6 +1844,31 @@ TARGETS = [
 ]
 
 
+# `_convolve.cpp: find2d` — the whole kernel (four nested loops, compound loop conditions, `goto next_pos`), twice:
+#   find2d_marks     the positions `out.at(y, x) = true` is executed for, the element comparison being the oracle `ne_`
+#   find2d_accesses  every index pair the kernel can touch (reads of `array` = 0, `target` = 1, writes of `out` = 2), the
+#                    data-dependent exit never taken
+_FIND2D = dict(file='mahotas/_convolve.cpp', func='find2d', pick='generic', tparams=['T'], params=[], raw_params=True,
+               c_param_names=['array', 'target', 'out'], ret_kind='int', void=True,
+               extra_params=[('adims', 'list'), ('tdims', 'list')],
+               skip_prefixes=[['gil_release'], ['bool', '*'], ['std', '::', 'fill']],
+               accessors={'array.dim()': ('adims', 'int'), 'target.dim()': ('tdims', 'int')})
+TARGETS += [
+    dict(_FIND2D, key='find2d_marks', lean='find2d_marks',
+         trace=dict(reads=[], silent_reads=['array.at()', 'target.at()'], writes=['out.at()'], oracle=('ne_', '!=', 4)),
+         driver_call='find2d_marks (fun i j k l => decide ((a.ints "l2").getD (Int.toNat (i * ((a.ints "l0").getD 1 0) + j)) 0 ≠ '
+                     '(a.ints "l3").getD (Int.toNat (k * ((a.ints "l1").getD 1 0) + l)) 0)) (a.ints "l0") (a.ints "l1")',
+         doc='TRACE translation of the whole kernel: the value is the list of the `(y, x)` for which `out.at(y, x) = true` is executed, '
+             'in loop order; `ne_ i j k l` stands for `array.at(i, j) != target.at(k, l)`; `array.dim(d)` / `target.dim(d)` read the '
+             'lists `adims` / `tdims`; `goto next_pos` (label at the end of the loop body) is a flag that disables the rest of the body'),
+    dict(_FIND2D, key='find2d_accesses', lean='find2d_accesses',
+         trace=dict(reads={'array.at()': 0, 'target.at()': 1}, writes={'out.at()': 2}, etype='Int × Int × Int', opaque_if='never'),
+         doc='TRACE translation of the whole kernel: the list of `(k, i, j)` = index pair `(i, j)` used on `array` (k = 0, read), `target` '
+             '(k = 1, read), `out` (k = 2, write), in source order, when no comparison ever leaves the inner loops (every actual run '
+             'touches a subset)'),
+]
+
+
 def pick_function(repo: Path, tg) -> CFunc:
     p = repo / tg['file']
     if not p.exists():
@@ -1734,6 +1974,7 @@ def translate_target(repo: Path, tg, known) -> dict:
     pr = Parser(body_toks, where, tparams={**{n: 'T' for n in tparams}, **{n: 'int' for n in INT}}, enums=enums)
     pr.ptr_elems = set(tg.get('ptr_elems') or [])
     pr.struct_types = set(tg.get('struct_types') or [])
+    pr.skip_prefixes = [tuple(x) for x in (tg.get('skip_prefixes') or [])]
     if tg.get('trace'):
         pr.allow_float = True
         pr.tparams.update({n: 'elem' for n in list(tparams) + ['double', 'float']})
@@ -1758,18 +1999,23 @@ def translate_target(repo: Path, tg, known) -> dict:
         term = tr.stmts(body, env, lambda env2, ind2: '  ' * ind2 + lname(res), 1)
     else:
         def fell(env2, ind2):
+            if tg.get('trace') and tg.get('void'):
+                return '  ' * ind2 + 'acc_'
             raise TranslationError(f'{where}: control reaches the end of the function without `return`')
         term = tr.stmts(body, env, fell, 1)
     if tg.get('trace'):
-        term = '  let acc_ : List (Int × Int) := []\n' + term
+        term = f'  let acc_ : List ({tr.etype()}) := []\n' + term
     binders = []
     if tr.uses_dt:
         binders.append('(dt : DT)')
+    if tg.get('trace') and tg['trace'].get('oracle'):
+        oname, _, on = tg['trace']['oracle']
+        binders.append(f'({oname} : {"Int → " * on}Bool)')
     for n, kd in cfg:
         binders.append(f'({lname(n)} : {"List Int" if kd == "list" else tr.lean_type(kd)})')
     for n, kd in tg.get('extra_params', []):
         binders.append(f'({lname(n)} : {"List Int" if kd == "list" else tr.lean_type(kd)})')
-    rty = 'Option Int' if tg.get('flag_const') else ('List (Int × Int)' if tg.get('trace') else tr.lean_type(tg['ret_kind']))
+    rty = 'Option Int' if tg.get('flag_const') else (f'List ({tr.etype()})' if tg.get('trace') else tr.lean_type(tg['ret_kind']))
     doc = [f'/-- `{tg["func"]}`{" (" + tg["pick"] + ")" if tg["pick"] != "plain" else ""} — {tg["file"]} lines {f.line0}–{f.line1}, '
            f'sha256 of the token text {f.hash}.']
     if tg.get('doc'):
@@ -1777,7 +2023,9 @@ def translate_target(repo: Path, tg, known) -> dict:
     if tr.asserts:
         doc.append('    ignored `assert`s: ' + ', '.join(tr.asserts) + '.')
     if tr.assumptions:
-        doc.append('    assumed: ' + '; '.join(tr.assumptions) + '.')
+        doc.append('    assumed: ' + '; '.join(dict.fromkeys(tr.assumptions)) + '.')
+    if tr.ignored:
+        doc.append('    statements without effect on this value (configured, not translated): ' + '; '.join(tr.ignored) + '.')
     doc[-1] += ' -/'
     if tr.aux:
         clash = sorted({a for a, _ in tr.aux} & ({lname(n) for n, _ in cfg} | {lname(n) for n, _ in tg.get('extra_params', [])}))
@@ -1922,7 +2170,7 @@ def handle_block(entries) -> list[str]:
          '  let x (i : Nat) : Int := xs.getD i 0',
          '  let dt := DT.ofName (a.str "dt")',
          '  match a.str "fn" with']
-    for lean, kinds, uses_dt, opt in entries:
+    for lean, kinds, uses_dt, opt, *over in entries:
         args, si, li = [], 0, 0
         for kd in kinds:
             if kd == 'list':
@@ -1938,12 +2186,16 @@ def handle_block(entries) -> list[str]:
                 args.append(f'(x {si})')
                 si += 1
         call = f'{lean} {"dt " if uses_dt else ""}{" ".join(args)}'
+        if over and over[0]:
+            call = over[0]
         if opt == 'opt':
             s.append(f'  | "{lean}" => match {call} with | some v => s!"r={{v}}" | none => "r=u"')
         elif opt == 'list':
             s.append(f'  | "{lean}" => "r=" ++ showInts ({call})')
         elif opt == 'trace':
             s.append(f'  | "{lean}" => "r=" ++ ";".intercalate (({call}).map fun p => s!"{{p.1}},{{p.2}}")')
+        elif opt == 'trace3':
+            s.append(f'  | "{lean}" => "r=" ++ ";".intercalate (({call}).map fun p => s!"{{p.1}},{{p.2.1}},{{p.2.2}}")')
         else:
             s.append(f'  | "{lean}" => s!"r={{{call}}}"')
     s += ['  | f => s!"error=unknown-fn-{f}"', '']
@@ -1992,7 +2244,9 @@ def generate(repo: Path, outdir: Path) -> dict:
             lean=tg['lean'], params=[kd for _, kd in allp], ret=tg['ret_kind'],
             dt=('T-as-arg' if tg.get('template_call') else uses_dt), trace=bool(tg.get('trace')))
         entries.append((tg['lean'], [kd for _, kd in allp], uses_dt,
-                        'opt' if tg.get('flag_const') else ('trace' if tg.get('trace') else ('list' if tg['ret_kind'] == 'list' else ''))))
+                        'opt' if tg.get('flag_const') else (('trace3' if tg['trace'].get('etype') else 'trace') if tg.get('trace')
+                                                            else ('list' if tg['ret_kind'] == 'list' else '')),
+                        tg.get('driver_call')))
         names[blk] = ['Mahotas.Generated.C.' + n for n in defined_names('\n'.join(lines))]
         blocks.append([blk, list(lines)])
 
